@@ -68,6 +68,9 @@ def match_pattern(it, p, v, fr, binds) -> bool:
         return all(match_pattern(it, sp, x, fr, binds) for sp, x in zip(p.patterns, v))
     if isinstance(p, ast.MatchClass):
         cls = it.eval(p.cls, fr)
+        from .values import Builtin
+        if isinstance(cls, Builtin) and cls.name in it.e.bclasses:
+            cls = it.e.bclasses[cls.name]
         if not it.truth(_isinstance(it, v, cls)):
             return False
         builtin_single = isinstance(cls, ClassVal) and cls.builtin and cls.name in (
